@@ -1,9 +1,71 @@
 import HedVerif.Driver.Util
+import HedVerif.Driver.C11
+import HedVerif.Model.Validate
 open Lean
 namespace HedVerif.Driver.C01
-open HedVerif HedVerif.Driver
+open HedVerif HedVerif.Driver HedVerif.Validate
 
-/-- requests `{"op":"c01.<name>", ...}` of property C01 (stub: none yet) -/
-def handle (_op : String) (_j : Json) : Option (Except String Json) := none
+/- requests of property C01.  `c01.run` is self-contained (vocabulary, attributes, unit classes, character
+   data and a list of cases in one request), so no session state is needed. -/
+
+def getStrList (j : Json) (k : String) : Except String (List Str) := do
+  (← getArr j k).mapM asStr
+
+def getCharList (j : Json) (k : String) : Except String (List Char) := do
+  pure ((← getArr j k).filterMap fun x => match x.getNat? with
+    | .ok n => some (Char.ofNat n)
+    | .error _ => none)
+
+def attrOf (j : Json) : Except String TagAttr := do
+  let parent := match j.getObjVal? "parent" with
+    | .ok v => (match v.getNat? with | .ok n => some n | .error _ => none)
+    | .error _ => none
+  pure { extensionAllowed := getBoolD j "ext" false, takesValue := getBoolD j "tv" false,
+         requireChild := getBoolD j "rc" false, tagGroup := getBoolD j "tg" false,
+         topLevelTagGroup := getBoolD j "tl" false, unique := getBoolD j "uq" false,
+         required := getBoolD j "rq" false, deprecated := getBoolD j "dep" false,
+         unitClasses := (← (← getArr j "uc").mapM asNat), valueClasses := (← getStrList j "vc"),
+         parent := parent }
+
+def envOf (j : Json) : Except String Env := do
+  let tags ← getStrList j "tags"
+  let attrs ← (← getArr j "attrs").mapM attrOf
+  let mods ← (← getArr j "mods").mapM C11.modOf
+  let classes ← (← getArr j "classes").mapM C11.classOf
+  let cd : CharData := { nonPrintable := ← getCharList j "nonprintable", space := ← getCharList j "space",
+                         alnum := ← getCharList j "alnum", alpha := ← getCharList j "alpha" }
+  let var : Variant := { sortCanonical := getBoolD j "sortCanonical" false, eqFold := getBoolD j "eqFold" false,
+                         emptyDupSafe := getBoolD j "emptyDupSafe" false }
+  pure { var := var, vocab := Schema.Vocab.build fold (tags.map Schema.splitSlash), ns := ← getStr j "ns",
+         attrs := attrs.toArray, mods := mods, unitClasses := classes.toArray,
+         modern := ← getBool j "modern", cd := cd }
+
+def pairJson : Option (Nat × Nat) → Json
+  | some (a, b) => jarr [jnat a, jnat b]
+  | none => Json.null
+
+/-- text as code points: the harness splits the driver's output with `str.splitlines`, which also breaks at
+U+0085, U+001C.., U+2028 -/
+def jcps (s : Str) : Json := jarr (s.map fun c => jnat c.toNat)
+
+def issueJson (i : Issue) : Json :=
+  jobj [("kind", jstr i.kind.name), ("code", jstr i.code), ("sev", jnat i.sev), ("span", pairJson i.span),
+        ("sub", pairJson i.sub), ("chr", jopt jnat i.chr), ("txt", jopt jcps i.txt)]
+
+def caseJson (env : Env) (j : Json) : Except String Json := do
+  let text ← getStr j "text"
+  let ph ← getBool j "ph"
+  let p := parse env text
+  pure (jobj [("issues", jarr ((validateP env ph text p).map issueJson)),
+              ("raises", jbool (raisesP env ph text p)),
+              ("unmodelled", jbool (unmodelledP env p))])
+
+def handle (op : String) (j : Json) : Option (Except String Json) :=
+  match op with
+  | "c01.run" => some do
+      let env ← envOf j
+      let answers ← (← getArr j "cases").mapM (caseJson env)
+      pure (jobj [("answers", jarr answers), ("dups", jarr (env.vocab.dups.map jnat))])
+  | _ => none
 
 end HedVerif.Driver.C01
